@@ -274,6 +274,7 @@ NCHUNK = 3
 def run_partition(part, tier, seed):
     acc = Acc(seed)
     chunk = part[1]
+    anchor = None
     for n, case in enumerate(gen(part[:1], tier)):
         if n % NCHUNK != chunk:
             continue
@@ -287,4 +288,17 @@ def run_partition(part, tier, seed):
         for kk, w in v:
             acc.violation(kk, w, case)
         acc.outcome((obs[0] if obs else None, tuple(x for x, _ in v)))
+        # anchor: the first case of the partition is built again every 100 cases and must give the very same bytes (nothing a later
+        # build leaves behind - a cache, a grown table, a shared buffer - may change what the same inputs produce)
+        if anchor is None and obs and not v:
+            anchor = (case, obs[0])
+        elif anchor is not None and n % 100 == 0:
+            o2 = []
+            try:
+                v2 = run_case(anchor[0], o2)
+            except Exception as e:   # noqa: BLE001
+                v2, o2 = [("anchor", str(e))], [None]
+            if v2 or not o2 or o2[0] != anchor[1]:
+                acc.violation("%s/depends_on_history" % anchor[0][0], "building %r again after %d other builds gives a different result (%s)"
+                              % (anchor[0], n, v2[:1] or "bytes differ"), anchor[0])
     return acc
